@@ -98,8 +98,9 @@ theorem Bls.KeyValidate_eq (pk : Bytes) : Gen.ExtraBls.KeyValidate pk = pure (ke
       subst he
       simp [hl] <;> rfl
     | ok pt =>
-      simp [hl]
-      cases Gen.OptBls.is_inf pt <;> cases subgroupCheck pt <;> rfl
+      -- both truth values of the two tests, then normalise: the proof does not depend on whether the source spells the
+      -- tail as `if .. return False` steps or as one boolean expression
+      cases h1 : Gen.OptBls.is_inf pt <;> cases h2 : subgroupCheck pt <;> simp [hl, h1, h2] <;> rfl
   · simp [hl] <;> rfl
 
 /-- `G2ProofOfPossession._is_valid_pubkey(pubkey)` (the override: `super()._is_valid_pubkey` then `cls.KeyValidate`)
